@@ -1,5 +1,6 @@
 /- Model/C18Gen.lean — the C18 model instantiated with the facts the translator extracted. -/
 import PsutilModel.Model.C18
+import PsutilModel.Model.C18Who
 import PsutilModel.Generated.C18
 namespace Psutil.C18
 
@@ -31,5 +32,16 @@ def cfg : Cfg :=
     affSetChecks := Gen.C18.affinitySetChecksRetval
     affLoop := ⟨Gen.C18.affinityGetInitBits, Gen.C18.affinityGetRetryTest, Gen.C18.affinityGetGrowth.1,
       Gen.C18.affinityGetGrowth.2⟩ }
+
+/-- which process each form addresses, as extracted from the current source (Model/C18Who.lean) -/
+def routing : Routing :=
+  { niceGet := Addr.ofCode Gen.C18.addrNiceGet
+    niceSet := Addr.ofCode Gen.C18.addrNiceSet
+    ioniceGet := Addr.ofCode Gen.C18.addrIoniceGet
+    ioniceSet := Addr.ofCode Gen.C18.addrIoniceSet
+    affGet := Addr.ofCode Gen.C18.addrAffinityGet
+    affSet := Addr.ofCode Gen.C18.addrAffinitySet
+    rlimitGet := Addr.ofCode Gen.C18.addrRlimitGet
+    rlimitSet := Addr.ofCode Gen.C18.addrRlimitSet }
 
 end Psutil.C18
